@@ -26,6 +26,9 @@ func (k msgServer) SwapExactAmountOut(ctx context.Context, msg *types.MsgSwapExa
 		return nil, errorsmod.Wrapf(types.ErrInvalidRoute, "invalid route: %s", err)
 	}
 
+	if msg.MaxAmountIn.IsNil() || msg.AmountOut.IsNil() {
+		return nil, errorsmod.Wrap(types.ErrInvalidAmount, "max amount in and amount out cannot be empty")
+	}
 	if !msg.MaxAmountIn.IsPositive() {
 		return nil, errorsmod.Wrapf(types.ErrInvalidAmount, "max amount in must be positive: %s", msg.MaxAmountIn)
 	}
